@@ -115,7 +115,7 @@ type Env struct {
 }
 
 func EnvFromOS(prop string) *Env {
-	e := &Env{Repo: "/repo", Verif: "/verif", Tier: "quick", Workers: 8, TimeoutS: 20}
+	e := &Env{Repo: "/repo", Verif: "/verif", Tier: "quick", Workers: 16, TimeoutS: 20}
 	if v := os.Getenv("VERIF_REPO"); v != "" {
 		e.Repo = v
 	}
